@@ -51,6 +51,8 @@ class EventBase(ObjectWithFields):
             raise ValueError('event count, duration and start must not be negative')
         if self.version not in {0, 1}:
             raise ValueError('event version must be 0 or 1')
+        if self.timescale > 0xFFFFFFFF or self.duration > 0xFFFFFFFF:
+            raise ValueError('event timescale and duration are 32 bit fields of an emsg box')
 
     @abstractmethod
     def create_manifest_context(self, context: dict) -> dict:
